@@ -62,9 +62,34 @@ def code_facts(path):
     return out
 
 
+def handler_paths(eng, side):
+    """Normally returning paths of the SETTINGS handler for one kind of
+    frame - 'local': an ACK of our settings, 'remote': the peer's settings -
+    with both acknowledge helpers taken in (read through the call)."""
+    fh = eng.m.func(H + '_receive_settings_frame')
+    allp = cm.normal_paths(eng.interp(
+        {H + '_local_settings_acked', H + '_acknowledge_settings'},
+        depth=2).run(fh))
+    want_ack = side == 'local'
+    return [p for p in allp if cm.fact_polarity(
+        p, ('in', T.C('ACK'), ('a', ('p', 'frame'), 'flags', 0))) is
+        want_ack]
+
+
 def check_apply(ctx, eng, qual, table, side):
     fi = eng.m.func(qual)
-    paths = cm.normal_paths(eng.I.run(fi))
+    # read through the call: the SETTINGS handler's paths of the matching
+    # kind (ACK received for the local side, settings received for the remote
+    # side) with both acknowledge helpers taken in
+    fh = eng.m.func(H + '_receive_settings_frame')
+    allp = cm.normal_paths(eng.interp(
+        {H + '_local_settings_acked', H + '_acknowledge_settings'},
+        depth=2).run(fh))
+    want_ack = side == 'local'
+    paths = [p for p in allp if cm.fact_polarity(
+        p, ('in', T.C('ACK'), ('a', ('p', 'frame'), 'flags', 0))) is
+        want_ack]
+    own_frames = {fi.qual, fh.qual}
     bads = {k: [] for k in table}
     seen = {k: False for k in table}
     for p in paths:
@@ -92,7 +117,7 @@ def check_apply(ctx, eng, qual, table, side):
                                    'that change expected' % attr)
                     continue
                 ws = [e for e in p.events if e.kind == 'write' and
-                      e.attr == attr and e.frame == fi.qual]
+                      e.attr == attr and e.frame in own_frames]
                 if owner == '<each stream>':
                     ws = [e for e in ws if e.in_loop]
                     loop_events = [e for e in p.events if e.in_loop]
@@ -162,9 +187,19 @@ def run(ctx, eng):
     m = eng.m
     # ---- (a) _receive_settings_frame
     fi = m.func(H + '_receive_settings_frame')
-    paths = eng.I.run(fi)
+    # read through the calls: the two acknowledge helpers are taken into the
+    # handler's paths, so that the clauses speak of what happens (which
+    # Settings object is acknowledged, what the event carries, which frame is
+    # returned) and not of which side of a call does it
+    helpers = {H + '_local_settings_acked', H + '_acknowledge_settings'}
+    paths = eng.interp(helpers, depth=2).run(fi)
     bad = []
     kinds = set()
+    n_ackframe = 0
+
+    def acks(p, which):
+        return [e for e in p.events if cm.is_call_to(e, 'acknowledge') and
+                cm.attr_chain(e.get('recv')) == 'self.%s_settings' % which]
     for p in cm.normal_paths(paths):
         ack = cm.fact_polarity(p, ('in', T.C('ACK'),
                                    ('a', ('p', 'frame'), 'flags', 0)))
@@ -175,30 +210,36 @@ def run(ctx, eng):
         if not (v and v[0] == 'tuple' and len(v[1]) == 2):
             bad.append('does not return (frames, events)')
             continue
+        steps = [s for s, _, _ in cm.process_inputs(p)]
         if ack:
             kinds.add('ack')
-            la = cm.calls_to(p, '_local_settings_acked')
+            la = acks(p, 'local')
             evs = [e for e in p.events if e.kind == 'new' and
                    e.cls == 'SettingsAcknowledged']
             if len(la) != 1 or len(evs) != 1:
-                bad.append('ACK path: one _local_settings_acked and one '
-                           'SettingsAcknowledged expected')
+                bad.append('ACK path: one local_settings.acknowledge() and '
+                           'one SettingsAcknowledged expected')
                 continue
             f = p.state.objs.get(evs[0].obj, {})
             if f.get('changed_settings') != la[0].result:
                 bad.append('SettingsAcknowledged does not carry what '
-                           '_local_settings_acked returned')
+                           'local_settings.acknowledge() returned')
             if cm.list_elems(p, v[1][0]) != ():
                 bad.append('an ACK is answered with frames')
-            if cm.calls_to(p, '_acknowledge_settings', 'update'):
+            if acks(p, 'remote') or [
+                    e for e in p.events if e.kind == 'call' and
+                    cm.ev_callee_names(e) & {'update'} and
+                    cm.attr_chain(e.recv) == 'self.remote_settings']:
                 bad.append('ACK path touches the remote settings')
+            if steps != ['RECV_SETTINGS']:
+                bad.append('connection input %s on the ACK path' % steps)
         else:
             kinds.add('settings')
             up = [e for e in p.events if e.kind == 'call' and
                   cm.ev_callee_names(e) & {'update'} and
                   cm.attr_chain(e.recv) == 'self.remote_settings']
             fs = cm.calls_to(p, 'from_settings')
-            ak = cm.calls_to(p, '_acknowledge_settings')
+            ak = acks(p, 'remote')
             if len(up) != 1 or len(fs) != 1 or len(ak) != 1:
                 bad.append('non-ACK path: one update, one '
                            'RemoteSettingsChanged and one acknowledge '
@@ -214,45 +255,40 @@ def run(ctx, eng):
             if a != ['self.remote_settings', 'frame.settings']:
                 bad.append('RemoteSettingsChanged.from_settings(remote '
                            'settings, frame.settings) expected')
-            if v[1][0] != ak[0].result:
-                bad.append('the ACK frame list is not what '
-                           '_acknowledge_settings returned')
-            if cm.calls_to(p, '_local_settings_acked'):
+            el = cm.list_elems(p, v[1][0])
+            if el is None or len(el) != 1 or el[0][0] != 'obj' or \
+                    el[0][2] != 'SettingsFrame':
+                bad.append('the frames returned must be exactly one SETTINGS '
+                           'frame')
+            else:
+                n_ackframe += 1
+                f = p.state.objs.get(el[0], {})
+                if f.get('flags') != ('set', frozenset([T.C('ACK')])) or \
+                        f.get('settings') not in (None, T.NONE):
+                    bad.append('the returned frame must be an empty ACK')
+            if acks(p, 'local'):
                 bad.append('non-ACK path acknowledges local settings')
-        if [s for s, _, _ in cm.process_inputs(p)] != ['RECV_SETTINGS']:
-            bad.append('connection input')
+            if steps != ['RECV_SETTINGS', 'SEND_SETTINGS']:
+                bad.append('connection inputs %s, expected RECV_SETTINGS '
+                           'then SEND_SETTINGS' % steps)
     ctx.ob('ORD.settings', fi.qual, 'apply, report, acknowledge', kinds ==
            {'ack', 'settings'} and not bad, '; '.join(sorted(set(bad))) or
            'ok', node=fi.node)
     f2 = m.func(H + '_acknowledge_settings')
-    bad = []
-    n = 0
-    for p in cm.normal_paths(eng.I.run(f2)):
-        n += 1
-        el = cm.list_elems(p, p.value)
-        if el is None or len(el) != 1 or el[0][0] != 'obj' or \
-                el[0][2] != 'SettingsFrame':
-            bad.append('must return exactly one SETTINGS frame')
-            continue
-        f = p.state.objs.get(el[0], {})
-        if f.get('flags') != ('set', frozenset([T.C('ACK')])) or \
-                f.get('settings') not in (None, T.NONE):
-            bad.append('the returned frame must be an empty ACK')
-        if [s for s, _, _ in cm.process_inputs(p)] != ['SEND_SETTINGS']:
-            bad.append('connection input')
     ctx.ob('FLOW.ack-frame', f2.qual, 'exactly one empty SETTINGS ACK',
-           n > 0 and not bad, '; '.join(sorted(set(bad))) or 'ok',
-           node=f2.node)
+           n_ackframe > 0 and not [b for b in bad if 'frame' in b],
+           'every non-ACK path returns [SettingsFrame(0){ACK}] after '
+           'SEND_SETTINGS', node=f2.node)
     # ---- (b) apply maps
     check_apply(ctx, eng, H + '_acknowledge_settings', REMOTE_APPLY, 'remote')
     lp = check_apply(ctx, eng, H + '_local_settings_acked', LOCAL_APPLY,
                      'local')
-    ok = bool(lp) and all(
-        p.value is not None and p.value[0] == 'call' and
-        p.value[1].endswith('acknowledge') for p in lp)
+    # (that what is acknowledged reaches the SettingsAcknowledged event is
+    # part of ORD.settings above)
     ctx.ob('FLOW.ack-source', H + '_local_settings_acked',
-           'returns the acknowledged changes', ok,
-           'returns local_settings.acknowledge()')
+           'returns the acknowledged changes', bool(lp),
+           '%d ACK paths of the SETTINGS handler acknowledge the local '
+           'settings' % len(lp))
     # ---- (c) update_settings
     f3 = m.func(H + 'update_settings')
     paths = eng.I.run(f3)
